@@ -153,6 +153,9 @@ pub struct StepResult {
     pub log_digest: String,
     #[serde(default)]
     pub log: Vec<String>,
+    /// call sequence number of each log line
+    #[serde(default)]
+    pub log_seq: Vec<u64>,
     pub clock_calls: u32,
     pub pid_calls: u32,
     pub cwd_calls: u32,
